@@ -4,6 +4,7 @@ import (
 	"go/ast"
 	"go/token"
 	"go/types"
+	"regexp"
 	"strings"
 
 	"verif/mlbcheck/chk"
@@ -18,7 +19,8 @@ func init() {
 			"self-locking fetchers (LOCK-ENTRY); every access to a field of the guarded-by table is made with its lock held, in write mode for writes, with the " +
 			"caller-holds locksets of unexported helpers computed as a fixed point over their call sites (LOCK-GUARDED); the notification callbacks and the " +
 			"gratuitous-announcement channel send execute with the fine-grained lock released, defers modelled in LIFO order (LOCK-NOBLOCK); no method hands out " +
-			"guarded storage that is later mutated in place: results are copies made under the lock, or the storage is only ever replaced wholesale (LOCK-LEAK).",
+			"guarded storage that is later mutated in place: results are copies made under the lock, or the storage is only ever replaced wholesale (LOCK-LEAK); the status reconcilers only read what the " +
+			"fetchers hand out (FETCHED-READONLY).",
 		NotDecided: "Serial equivalence of results as values (a consequence of mutual exclusion under one global lock, argued not checked); races inside third-party " +
 			"libraries; which lock *instance* is held (no pointer analysis: a guarded structure is reached through its owning receiver).",
 		Run:      runC20,
@@ -187,6 +189,8 @@ func c20FetchedReadOnly(p *chk.Prog, r *chk.Report) {
 	r.CallSites += n
 }
 
+var deferTemp = regexp.MustCompile(`^_dfr[0-9]+$`)
+
 func c20Entry(p *chk.Prog, r *chk.Report) {
 	x := r.Rule("LOCK-ENTRY", "C locks + D who-may-call", "the func-typed fields of k8s.Listener are called only from the Listener.*Handler wrapper of the same event kind, with the Listener mutex held (Lock + deferred Unlock); every `Handler:` of a reconciler literal in k8s.New is the matching wrapper's method value; a method value of a state-touching type (controller.controller, speaker.controller, allocator.Allocator, speaker.bgpController, speaker.layer2Controller) is taken only inside a k8s.Listener literal, or is one of the self-locking fetchers CountersForPool / PeersForService", 14)
 	la := locksOf(p)
@@ -226,6 +230,38 @@ func c20Entry(p *chk.Prog, r *chk.Report) {
 						if lk, op := f.LockOp(d.Call); lk == lock && op == "Unlock" {
 							okk = true
 						}
+					}
+					// ... or it was deferred in a locking helper whose body the normalisation expanded here: the deferred call
+					// is then written out behind the result temporary `_dfrN := <call>` that only chk/deferres.go creates. (An
+					// unlock written out by hand is not accepted: a panicking handler - the reconcilers recover panics -
+					// would leave the mutex locked and stop every other handler for good.)
+					fromDefer := false
+					if as, isAs := p.Parent(call).(*ast.AssignStmt); isAs && len(as.Lhs) == 1 {
+						if id, isId := as.Lhs[0].(*ast.Ident); isId && deferTemp.MatchString(id.Name) {
+							fromDefer = true
+						}
+					} else if pe, isP := p.Parent(call).(*ast.ParenExpr); isP {
+						if as, isAs := p.Parent(pe).(*ast.AssignStmt); isAs && len(as.Lhs) == 1 {
+							if id, isId := as.Lhs[0].(*ast.Ident); isId && deferTemp.MatchString(id.Name) {
+								fromDefer = true
+							}
+						}
+					}
+					if !okk && fromDefer {
+						g := f.Graph()
+						unlocks := func(n ast.Node) bool {
+							found := false
+							chk.InspectNoLit(n, func(m ast.Node) bool {
+								if c, isC := m.(*ast.CallExpr); isC {
+									if lk, op := f.LockOp(c); lk == lock && op == "Unlock" {
+										found = true
+									}
+								}
+								return !found
+							})
+							return found
+						}
+						okk = !g.MustPass(g.FactSite(call), nil, true, unlocks).Found
 					}
 					// or the call sits in a function literal that a locking helper runs with the mutex held around
 					// the whole invocation (l.locked(func() { return l.XChanged(...) }))
